@@ -10,6 +10,29 @@
 #include <condition_variable>
 
 
+#ifdef FASTSCAPELIB_VERIF_HOOKS
+namespace fastscapelib
+{
+    namespace verif
+    {
+        // verification-only schedule points (see /verif/DESIGN.md): a test-installed
+        // callback is invoked at each named synchronisation step of the pool.
+        using sched_cb = void (*)(const char* point, std::size_t who);
+        inline std::atomic<sched_cb> g_sched{ nullptr };
+
+        inline void sched(const char* point, std::size_t who)
+        {
+            sched_cb cb = g_sched.load(std::memory_order_relaxed);
+            if (cb != nullptr)
+                cb(point, who);
+        }
+    }
+}
+#define FASTSCAPELIB_VERIF_SCHED(point, who) ::fastscapelib::verif::sched(point, who)
+#else
+#define FASTSCAPELIB_VERIF_SCHED(point, who)
+#endif
+
 namespace fastscapelib
 {
     template <class T>
